@@ -37,21 +37,22 @@ type Ctx struct {
 	liveSet     map[*ssa.Function]bool
 	DeadHelpers []string // unexported helpers left without any reference after inlining (dropped from ModFuncs)
 	// renamed anchors (anchors.go)
-	anchorAlias map[string]*ssa.Function
-	aliasTarget map[*ssa.Function]string
-	AnchorNotes []string
-	cdMemo      map[*ssa.Function][]paramDom
-	cdOpen      map[*ssa.Function]bool
-	postOpen    map[*ssa.Function]bool
-	cgCache     *callGraph
-	effCache    map[*ssa.Function]*funcEffects
-	fieldTab    map[string]*fieldStores
-	fieldEsc    map[string]bool
-	sumFA       map[*ssa.Function]*FA
-	crDepth     int
-	slotCache   *slotTables
-	curTables   *slotTables
-	fieldBits   map[string]int
+	anchorAlias  map[string]*ssa.Function
+	aliasTarget  map[*ssa.Function]string
+	AnchorNotes  []string
+	cdMemo       map[*ssa.Function][]paramDom
+	cdOpen       map[*ssa.Function]bool
+	postOpen     map[*ssa.Function]bool
+	cgCache      *callGraph
+	effCache     map[*ssa.Function]*funcEffects
+	fieldTab     map[string]*fieldStores
+	fieldEsc     map[string]bool
+	sumFA        map[*ssa.Function]*FA
+	fullCopyMemo map[*ssa.Function]map[*ssa.Call]bool
+	crDepth      int
+	slotCache    *slotTables
+	curTables    *slotTables
+	fieldBits    map[string]int
 }
 
 // CannotDecide is the error class for "the checker itself could not run" (exit 2).
@@ -167,6 +168,13 @@ func Load(dir, goarch, modPath string, minPkgs int) (*Ctx, error) {
 			// (composite literals accessed by constant indices) dissolved, see xt/ssa/unroll.go. Nothing on the
 			// tree the rules were written for qualifies.
 			c.Unrolled = append(c.Unrolled, ssa.NormalizeLoops(c.ModFuncs, ssa.UnrollOptions{DataOnly: true})...)
+			// reads at an integer offset that walks a byte slice (b[off+2:off+4]) become reads of the element at
+			// the cursor (elem := b[off:]; elem[2:4]), see xt/ssa/cursor.go. Nothing on the tree the rules were
+			// written for qualifies.
+			c.Unrolled = append(c.Unrolled, ssa.NormalizeOffsetReads(c.ModFuncs)...)
+			// a slice filled by index from a range over a map (keys[n] = k; n++) becomes the append form of the
+			// same collection, see xt/ssa/indexfill.go. Nothing on the tree the rules were written for qualifies.
+			c.Unrolled = append(c.Unrolled, ssa.NormalizeIndexFill(c.ModFuncs)...)
 			// third normalisation: a merge that selects among integer constants which then serve as slice bounds
 			// (switch kind { case A: n = 4; case B: n = 16 } ... b[8:8+n]) is duplicated per incoming edge, see
 			// xt/ssa/split.go. Nothing on the tree the rules were written for qualifies.
